@@ -54,6 +54,7 @@ Monitor == /\ Mon("ConstructedInRunningLoop", ConstructedInRunningLoop)
            /\ Mon("SigintGraceful", SigintGraceful)
            /\ Mon("ErrorsExitNonZero", ErrorsExitNonZero)
            /\ Mon("ExitZeroOnlyAfterSigint", ExitZeroOnlyAfterSigint)
+           /\ Mon("RunsUntilStopped", RunsUntilStopped)
            /\ Mon("NeverIdle", NeverIdle)
            /\ (l <= Len(Tr.events) \/ PrintT(<<"END", tid, l - 1, nc>>))
 NCMonitor == (nc' /\ ~nc) => PrintT(<<"NC", tid, l, Ev.e>>)
